@@ -223,7 +223,7 @@ Proof. exact C18_osc_bel_once. Qed.
 Theorem C18_osc_st : forall p fs,
   ground (vt p) -> osc_ok fs ->
   process p (osc_bytes_st fs) =
-  Ok (mkParser p_init (scr p) (log p ++ osc_events fs ++ [EUnhEscape None None 92]) (resizing p)).
+  Ok (mkParser p_init (scr p) (log p ++ osc_events fs) (resizing p)).
 Proof. exact C18_osc_st_once. Qed.
 
 Theorem C18_char : forall p c q,
@@ -258,9 +258,9 @@ Example C18_examples_misc :
 Proof. exact ex_misc. Qed.
 
 Example C18_examples_strings :
-  log_of (process p0 [27; 80; 113; 35; 48; 27; 92]) = [EUnhEscape None None 92] /\
-  log_of (process p0 [27; 88; 120; 27; 92]) = [EUnhEscape None None 92] /\
-  log_of (process p0 [27; 95; 120; 27; 92]) = [EUnhEscape None None 92] /\
+  log_of (process p0 [27; 80; 113; 35; 48; 27; 92]) = [] /\
+  log_of (process p0 [27; 88; 120; 27; 92]) = [] /\
+  log_of (process p0 [27; 95; 120; 27; 92]) = [] /\
   log_of (process p0 [27; 80; 113; 35; 48; 156]) = [] /\
   scr_same (process p0 [27; 80; 113; 35; 48; 27; 92]) p0.
 Proof. exact ex_strings_st. Qed.
